@@ -11,7 +11,7 @@
    closed. A request has [q_gate = true] when it came through SendMessage / SendNoWait / Shutdown (they
    wait for c.ready); negotiate's internal sends have [q_gate = false]. *)
 From Coq Require Import NArith List Bool.
-From LLRP Require Import Client.Types Client.Model Client.InvC08 Client.InvC08Gate Client.C08Proofs Client.C08Timeout Client.C08Wire.
+From LLRP Require Import Client.Types Client.Model Client.InvC08 Client.InvC08Gate Client.C08Proofs Client.C08Timeout Client.C08Wire Client.C08Neg.
 From LLRP Require Client.Stream Client.Hostile Client.HostileProofs Client.C08Bytes.
 Import ListNotations.
 Open Scope N_scope.
@@ -280,3 +280,70 @@ Example C08_example_early_ack_held :
       (out (run cfg11 (evs_ack ++ [ConnReady; PassGate 1; WDefault; WAccept 1; WWriteHdr]))) =
     [(T_GetSupportedVersion, 0, Some 1000); (T_KeepAliveAck, 77, None); (T_KeepAliveAck, 4040, Some 1)].
 Proof. vm_compute. repeat split; auto. repeat constructor. Qed.
+
+(* ---- round-7 addendum: WHEN negotiation is complete ----------------------------------------
+   The gate opens at ConnReady, enabled only in [PNegotiating NDone _] (C08_gate_opens_after_setup). Which replies take negotiate
+   there (Client/C08Neg.v): only an expected-type response with status Success — *)
+Theorem C08_spv_confirmed_spec : forall f, spv_ok f = true <->
+  f_len f <= max_buffered /\ f_typ f = T_SetProtocolVersionResponse /\ f_info f = IStatus Status_Success.
+Proof. exact spv_ok_spec. Qed.
+Print Assumptions C08_spv_confirmed_spec.
+
+(* (h) the reply to SetProtocolVersion decides: confirmed -> negotiation done (gate still shut, ConnReady next); ANYTHING else — an
+       ErrorMessage whatever its status, another type, an error status, an oversized reply — -> Connect returns the negotiation error on a
+       closed client with the gate shut (and C08_setup_failure_fails_callers takes over) *)
+Theorem C08_spv_reply_decides : forall cfg s c r seq f,
+  phase s = PNegotiating NSpv (Some c) -> lookup c (callers s) = Some (Done r (ROk seq f)) ->
+  let s' := step cfg s NegStep in
+  ready s' = ready s /\
+  (spv_ok f = true -> phase s' = PNegotiating NDone None /\ closed s' = closed s) /\
+  (spv_ok f = false -> phase s' = PReturned CErrNeg /\ closed s' = true).
+Proof. exact spv_reply_decides. Qed.
+Print Assumptions C08_spv_reply_decides.
+
+(* (i) the reply to GetSupportedVersion: a GetSupportedVersionResponse with Success (or ErrorMessage VersionUnsupported = a
+       1.0.1 reader; an ErrorMessage claiming Success fails setup since /repo 6e714d1) settles the version v = min(max, wanted); negotiation is done iff the reader's current version is v, otherwise
+       SetProtocolVersion follows; any other reply fails setup *)
+Theorem C08_gsv_outcome_spec : forall f cur mx, gsv_outcome f = Some (cur, mx) ->
+  f_len f <= max_buffered /\
+  ((f_typ f = T_GetSupportedVersionResponse /\ f_info f = IVer cur mx Status_Success) \/
+   (f_typ f = T_ErrorMessage /\ cur = 1 /\ mx = 1 /\ f_info f = IStatus Status_VerUnsupported)).
+Proof. exact gsv_outcome_spec. Qed.
+Print Assumptions C08_gsv_outcome_spec.
+
+Theorem C08_gsv_reply_decides : forall cfg s c r seq f,
+  phase s = PNegotiating NGsv (Some c) -> lookup c (callers s) = Some (Done r (ROk seq f)) ->
+  let s' := step cfg s NegStep in
+  ready s' = ready s /\
+  (forall cur mx, gsv_outcome f = Some (cur, mx) ->
+     let v := if mx <? version s then mx else version s in
+     version s' = v /\ closed s' = closed s /\
+     phase s' = PNegotiating (if cur =? v then NDone else NSpv) None) /\
+  (gsv_outcome f = None -> phase s' = PReturned CErrNeg /\ closed s' = true).
+Proof. exact gsv_reply_decides. Qed.
+Print Assumptions C08_gsv_reply_decides.
+
+(* (j) a negotiation send that ends without a reply (context over, client closed, zero Message) fails setup as well *)
+Theorem C08_neg_send_without_reply_fails : forall cfg s st c r res,
+  phase s = PNegotiating st (Some c) -> st <> NDone -> lookup c (callers s) = Some (Done r res) ->
+  (forall seq f, res <> ROk seq f) ->
+  let s' := step cfg s NegStep in
+  ready s' = ready s /\ closed s' = true /\ exists e, phase s' = PReturned e.
+Proof. exact neg_send_without_reply_fails. Qed.
+Print Assumptions C08_neg_send_without_reply_fails.
+
+(* non-vacuity: reader at 1.0.1 able to do 1.1 answers SetProtocolVersion with an ErrorMessage carrying Success: setup fails, the
+   early caller's request is never written, it gets the closed error *)
+Definition gsvr12 : frame := mkFrame 2 T_GetSupportedVersionResponse 0 10 50 (IVer 1 2 0).
+Definition errmsg_success : frame := mkFrame 2 T_ErrorMessage 1 8 52 (IStatus 0).
+Definition evs_spv_errmsg : list event :=
+  [Submit 1 (rq 20 5 101); ConnStart; ConnFirst (ren 0) HBNone;
+   NegSubmit 1000; WDefault; WAccept 1000; WWriteHdr; RCheck; RFrame gsvr12 HBNone; NegStep;
+   NegSubmit 1001; WDefault; WAccept 1001; WWriteHdr; WWritePay; RCheck; RFrame errmsg_success HBNone; NegStep;
+   ConnReady; PassGate 1; SeeClosed 1].
+Example C08_example_spv_answered_by_error_message_success :
+  let s := run cfg11 evs_spv_errmsg in
+  spv_ok errmsg_success = false /\ phase s = PReturned CErrNeg /\ ready s = false /\ closed s = true /\
+  map (fun o => f_typ (o_frame o)) (out s) = [T_GetSupportedVersion; T_SetProtocolVersion] /\
+  caller_result s 1 = Some RErrClosed.
+Proof. vm_compute. repeat split; reflexivity. Qed.
